@@ -204,6 +204,42 @@ static void circuit_case(Rng &rng, Stats &st, uint64_t k) {
         }
         if (!ok) out_x("circuit_to_tableau depends on qubit labels (big vs compact)");
     }
+    // the ignore_* flags: noise / measurements / resets interleaved with the unitary part are skipped when the matching flag is
+    // set (the tableau is the unitary part's) and refused when it is not
+    {
+        Circuit mixed;
+        bool has_noise = false, has_meas = false, has_reset = false;
+        uint32_t nq = (uint32_t)std::max<size_t>(1, comp.count_qubits());
+        for (const auto &op : comp.operations) {
+            if (rng.chance(0.25)) {
+                int w = (int)rng.below(3);
+                uint32_t q = (uint32_t)rng.below(nq);
+                if (w == 0) { mixed.safe_append_u(rng.chance(0.5) ? "X_ERROR" : "DEPOLARIZE1", {q}, {0.125}); has_noise = true; }
+                else if (w == 1) { mixed.safe_append_u(rng.chance(0.5) ? "M" : "MX", {q}); has_meas = true; }
+                else { mixed.safe_append_u(rng.chance(0.5) ? "R" : "RY", {q}); has_reset = true; }
+            }
+            if (op.gate_type == GateType::REPEAT) mixed.append_repeat_block(op.repeat_block_rep_count(), op.repeat_block_body(comp), op.tag);
+            else mixed.safe_append(op);
+        }
+        try {
+            auto Tm = circuit_to_tableau<W>(mixed, true, true, true);
+            if (Tm.num_qubits == T.num_qubits && Tm != T) out_x("circuit_to_tableau with the ignore flags differs from the tableau of the unitary part");
+            st.hit("circuit.ignore_flags");
+        } catch (const std::exception &e) {
+            out_x(std::string("circuit_to_tableau threw although every ignore flag was set: ") + e.what());
+        }
+        for (int which = 0; which < 3; which++) {
+            bool present = which == 0 ? has_noise : which == 1 ? has_meas : has_reset;
+            if (!present) continue;
+            bool threw = false;
+            try {
+                circuit_to_tableau<W>(mixed, which != 0, which != 1, which != 2);
+            } catch (const std::invalid_argument &) {
+                threw = true;
+            }
+            if (!threw) out_x(std::string("circuit_to_tableau accepted ") + (which == 0 ? "noise" : which == 1 ? "a measurement" : "a reset") + " without the matching ignore flag");
+        }
+    }
     auto Tinv = circuit_to_tableau<W>(comp, false, false, false, true);
     out_q("tab isinv " + wire_tab<W>(T) + " " + wire_tab<W>(Tinv), "1");
     // inverse circuit
